@@ -19,7 +19,7 @@
 #define KAPPA_MAX 1e5L        /* domain of the property: kappa([1 X]) <= 1e5 is judged, above is skipped */
 /* MLRPredictY into an output matrix that already holds the result of an earlier prediction with another
    number of rows (the documented "[out] predicted_y" says nothing about it having to be empty) */
-#define C07_PROBE_CONTAINER_REUSE 0
+#define C07_PROBE_CONTAINER_REUSE 1
 
 static long ncases(int tier) { return tier ? 150000 : 3000; }
 
@@ -288,7 +288,7 @@ static void run_case(vh_ctx *c)
         for (i = 0; i < n; i++) tss += (t[i] - ym) * (t[i] - ym);
         if (!(tss > 1e6L * EPS * EPS * yn * yn)) { vh_obs("stats_not_judged_constant_response", 1); continue; }
         fom(t, q, n, &r2, &rmse, &bias, &amp, &amp_b);
-        tol = 100 * EPS * ((ld)n + amp); tol_b = 100 * EPS * ((ld)n + amp_b);
+        tol = 100 * EPS * ((ld)n + amp); tol_b = 1e4 * EPS * ((ld)n + amp_b);   /* the mean itself carries up to n eps of summation error */
         vh_obs("regression_statistics_columns_judged", 1);
         vh_max("max_stats_r2_dev_over_eps_amp", (double)(fabsl(cc->data[k] - r2) / (EPS * ((ld)n + amp) * (1 + fabsl(1 - r2)))));
         vh_max("max_stats_bias_dev_over_eps_amp", (double)(fabsl(bi->data[k] - bias) / (EPS * ((ld)n + amp_b) * (1 + bias))));
